@@ -227,10 +227,9 @@ GsBaseMsr == << 257, 49152, 0, 0 >>
    samples and overwrites the cell at every cli (mark 3089) and sti (mark 1393).  The program
    is executed step by step over the cell; the observations must be the ones this sequential
    execution produces - a load hoisted over the cli or a store sunk below the sti shows. *)
-WinProg(api, if0) ==
-    LET open == api = "disable;enable" \/ if0 = 1
-    IN << "st_a" >> \o (IF open THEN << "cli" >> ELSE << >>) \o << "ld_seen", "st_b" >>
-                   \o (IF open THEN << "sti" >> ELSE << >>) \o << "ld_after", "st_c" >>
+WinProg(hasCli, hasSti) ==
+    << "st_a" >> \o (IF hasCli THEN << "cli" >> ELSE << >>) \o << "ld_seen", "st_b" >>
+                 \o (IF hasSti THEN << "sti" >> ELSE << >>) \o << "ld_after", "st_c" >>
 RECURSIVE WinExec(_, _, _, _, _)
 WinExec(prog, k, cell, obs, e) ==
     IF k > Len(prog) THEN [obs EXCEPT !.fin = cell]
@@ -242,14 +241,21 @@ WinExec(prog, k, cell, obs, e) ==
            [] s = "sti" -> WinExec(prog, k + 1, 1393, [obs EXCEPT !.hsti = cell], e)
            [] s = "ld_seen" -> WinExec(prog, k + 1, cell, [obs EXCEPT !.seen = cell], e)
            [] s = "ld_after" -> WinExec(prog, k + 1, cell, [obs EXCEPT !.after = cell], e)
+(* which instructions: a window that has to be opened (interrupts were enabled, or the explicit
+   disable;enable pair) needs the cli before and the sti after the body; when the flag was already
+   clear an implementation may or may not execute a (harmless) cli, but never an sti *)
 WindowOK(e) ==
-    LET prog == WinProg(e.api, e.if0)
-        o == WinExec(prog, 1, 0, [seen |-> 0, after |-> 0, hcli |-> 0, hsti |-> 0, fin |-> 0], e)
+    LET ms == [k \in 1 .. Len(e.instrs) |-> e.instrs[k].m]
         opened == e.api = "disable;enable" \/ e.if0 = 1
-    IN /\ e.r = << o.seen, o.after, o.fin >>
+        hasCli == ms # << >>
+        hasSti == Len(ms) = 2
+        prog == WinProg(hasCli, hasSti)
+        o == WinExec(prog, 1, 0, [seen |-> 0, after |-> 0, hcli |-> 0, hsti |-> 0, fin |-> 0], e)
+    IN /\ ms \in {<< >>, << "cli" >>, << "cli", "sti" >>}
+       /\ (opened => hasSti) /\ (~opened => ~hasSti)
+       /\ e.r = << o.seen, o.after, o.fin >>
        /\ e.h = << o.hcli, o.hsti >>
        /\ e.if1 = (IF e.api = "disable;enable" THEN 1 ELSE e.if0)
-       /\ [k \in 1 .. Len(e.instrs) |-> e.instrs[k].m] = (IF opened THEN << "cli", "sti" >> ELSE << >>)
 
 RECURSIVE SumW(_, _)
 SumW(ws, n) == IF n = 0 THEN ZeroW ELSE Add(SumW(ws, n - 1), ws[n]).v
